@@ -12,10 +12,10 @@ SPEC = {
     "inject": [("apollo-compiler", "src/ast/serialize.rs", "compiler/c09.rs", "verif_c09")],
     "support": ["parser/ref_lexer.rs", "compiler/c09_prefix.rs"],
     "unsafe_checks": False,
-    "timeout": {"quick": 900, "thorough": 2400},
-    "jobs": 12,
+    "timeout": {"quick": 1200, "thorough": 3000},
+    "jobs": 4,
     "harnesses": [
-        H(name, sub="prefixes", functions=F_S, tiers=("quick", "thorough") if quick else ("thorough",), heavy=True, timeout=2400,
+        H(name, sub="prefixes", functions=F_S, tiers=("quick", "thorough") if quick else ("thorough",), heavy=True, timeout=2400, optional=not quick,
           domain="Value::String(%r ++ [b]).serialize().no_indent(), b = every byte < 0x80: output is one valid StringValue token and decodes to the input" % pre,
           bound="string = %d concrete bytes + 1 symbolic byte" % len(pre.encode()))
         for name, pre, quick in _SHARDS
